@@ -48,7 +48,8 @@ def ways : List Way :=
    ⟨"Serve+handlerErr", true, [.handlerErr]⟩,
    ⟨"Serve+handlerStreamErr", true, [.handlerFails .wrapStream]⟩,
    ⟨"Serve+deadline", true, [.setDeadline .past]⟩,
-   ⟨"Close+Serve+peerClose", true, [.close, .peerClose]⟩]
+   ⟨"Close+Serve+peerClose", true, [.close, .peerClose]⟩,
+   ⟨"Close+Serve+handlerErr", true, [.close, .handlerErr]⟩]
 
 def stateAfter (w : Way) : Hist.St := (Hist.run (Hist.init w.serve) w.ops).1
 
